@@ -82,50 +82,77 @@ def lean_grep():
     return hits
 
 
+def theorem_modules(pid):
+    """property theorem modules of `pid`: SpiceEv/Properties/<pid>.lean and SpiceEv/Properties/<pid>_*.lean
+    (one file per strategy model); a development check may name its modules in THEOREM_MODULES"""
+    if pid in _THEOREM_MODULES:
+        return list(_THEOREM_MODULES[pid])
+    d = LEAN / "SpiceEv" / "Properties"
+    mods = [pid] if (d / (pid + ".lean")).exists() else []
+    return mods + sorted(f.stem for f in d.glob(pid + "_*.lean"))
+
+
+_THEOREM_MODULES = {}
+
+
+def theorem_names_by_module(pid):
+    out = {}
+    for m in theorem_modules(pid):
+        f = LEAN / "SpiceEv" / "Properties" / (m + ".lean")
+        if not f.exists():
+            out[m] = []
+            continue
+        pat = r"^theorem\s+(%s_\w+)" % (pid if re.match(r"^C\d\d$", pid) else r"C\d\d")
+        out[m] = re.findall(pat, _strip_comments(f.read_text()), flags=re.M)
+    return out
+
+
 def theorem_names(pid):
-    """property theorems of `pid`: every `theorem <pid>_…` in SpiceEv/Properties/<pid>.lean"""
-    f = LEAN / "SpiceEv" / "Properties" / (pid + ".lean")
-    if not f.exists():
-        return []
-    return re.findall(r"^theorem\s+(%s_\w+)" % pid, _strip_comments(f.read_text()), flags=re.M)
+    """property theorems of `pid`: every `theorem <pid>_…` in its theorem modules"""
+    return [n for ns in theorem_names_by_module(pid).values() for n in ns]
 
 
 def lean_audit(pid):
-    """#print axioms on every property theorem of pid. Returns dict."""
-    names = theorem_names(pid)
+    """#print axioms on every property theorem of pid (one audit file per module). Returns dict."""
+    by_mod = theorem_names_by_module(pid)
+    names = [n for ns in by_mod.values() for n in ns]
     res = {"obligations": names, "discharged": [], "failed": [], "axioms": {}, "log": ""}
     if not names:
         res["failed"].append("no property theorems found for " + pid)
         return res
-    audit = LEAN / ".lake" / ("audit_%s.lean" % pid)
-    audit.parent.mkdir(exist_ok=True)
-    audit.write_text("import SpiceEv.Properties.%s\n" % pid +
-                     "".join("#print axioms SpiceEv.%s\n" % n for n in names))
-    p = subprocess.run(["lake", "env", "lean", str(audit)], cwd=LEAN, capture_output=True, text=True)
-    out = p.stdout + p.stderr
-    res["log"] = out[-3000:]
-    flat = re.sub(r"\s+", " ", out)
-    for n in names:
-        m = re.search(r"'SpiceEv\.%s' depends on axioms: \[([^\]]*)\]" % re.escape(n), flat)
-        if m:
-            ax = [a.strip() for a in m.group(1).split(",") if a.strip()]
-        elif re.search(r"'SpiceEv\.%s' does not depend on any axioms" % re.escape(n), flat):
-            ax = []
-        else:
-            res["failed"].append("%s: not found / did not compile" % n)
+    for mod_name, mod_names in by_mod.items():
+        if not mod_names:
+            res["failed"].append("no property theorems found in module " + mod_name)
             continue
-        res["axioms"][n] = ax
-        bad = [a for a in ax if a not in ALLOWED_AXIOMS]
-        if bad:
-            res["failed"].append("%s: disallowed axioms %s" % (n, bad))
-        else:
-            res["discharged"].append(n)
+        audit = LEAN / ".lake" / ("audit_%s.lean" % mod_name)
+        audit.parent.mkdir(exist_ok=True)
+        audit.write_text("import SpiceEv.Properties.%s\n" % mod_name +
+                         "".join("#print axioms SpiceEv.%s\n" % n for n in mod_names))
+        p = subprocess.run(["lake", "env", "lean", str(audit)], cwd=LEAN, capture_output=True, text=True)
+        out = p.stdout + p.stderr
+        res["log"] = (res["log"] + out)[-3000:]
+        flat = re.sub(r"\s+", " ", out)
+        for n in mod_names:
+            m = re.search(r"'SpiceEv\.%s' depends on axioms: \[([^\]]*)\]" % re.escape(n), flat)
+            if m:
+                ax = [a.strip() for a in m.group(1).split(",") if a.strip()]
+            elif re.search(r"'SpiceEv\.%s' does not depend on any axioms" % re.escape(n), flat):
+                ax = []
+            else:
+                res["failed"].append("%s: not found / did not compile" % n)
+                continue
+            res["axioms"][n] = ax
+            bad = [a for a in ax if a not in ALLOWED_AXIOMS]
+            if bad:
+                res["failed"].append("%s: disallowed axioms %s" % (n, bad))
+            else:
+                res["discharged"].append(n)
     return res
 
 
 def leanchecker(pid):
-    """independent re-check of the compiled property module (thorough tier)"""
-    p = subprocess.run(["lake", "env", "leanchecker", "SpiceEv.Properties.%s" % pid],
+    """independent re-check of the compiled property modules (thorough tier)"""
+    p = subprocess.run(["lake", "env", "leanchecker"] + ["SpiceEv.Properties.%s" % m for m in theorem_modules(pid)],
                        cwd=LEAN, capture_output=True, text=True)
     return p.returncode == 0, (p.stdout + p.stderr)[-2000:]
 
@@ -351,9 +378,10 @@ class Run:
                 "discharged": len(aud["discharged"]),
                 "obligation_names": aud["obligations"],
                 "axioms": aud["axioms"],
-                "checker_cmd": "cd lean && lake build && lake env lean .lake/audit_%s.lean  "
-                               "(#print axioms on every %s_* theorem of SpiceEv/Properties/%s.lean)"
-                               % (self.pid, self.pid, self.pid),
+                "checker_cmd": "cd lean && lake build && " + " && ".join(
+                    "lake env lean .lake/audit_%s.lean" % m for m in theorem_modules(self.pid))
+                + "  (#print axioms on every %s_* theorem of SpiceEv/Properties/{%s}.lean)"
+                % (self.pid, ",".join(theorem_modules(self.pid))),
                 "trusted_base": TRUSTED_BASE + list(getattr(mod, "TRUSTED", [])),
                 "forbidden_token_hits": proof["grep"],
                 "leanchecker": proof.get("leanchecker"),
@@ -372,7 +400,8 @@ class Run:
             "wall_s": round(time.time() - self.t0, 2),
             "violations": n_viol,
         }
-        d = VERIF / "evidence"
+        # development checks of strategy models (S_<X>) are not properties: their evidence goes to a scratch place
+        d = VERIF / ("evidence" if re.match(r"^C\d\d$", self.pid) else "replays")
         d.mkdir(exist_ok=True)
         (d / (self.pid + ".json")).write_text(json.dumps(ev, indent=1, default=str))
 
@@ -395,6 +424,8 @@ def main_check(mod, argv):
     a = ap.parse_args(argv)
     seed = int(os.environ.get("VERIF_SEED", "0"))
     use_repo()
+    if getattr(mod, "THEOREM_MODULES", None):
+        _THEOREM_MODULES[mod.PID] = list(mod.THEOREM_MODULES)
     if a.replay:
         return replay(mod, a.replay)
     run = Run(mod, a.tier, seed)
